@@ -191,12 +191,23 @@ func (w *WAL) Read() ([]types.Entry, error) {
 		// data length
 		var n int64
 		if err = binary.Read(reader, binary.LittleEndian, &n); err != nil {
+			if isTornTail(err) {
+				// the last append was cut short by a crash: it was never acknowledged
+				break
+			}
 			return nil, err
+		}
+		if n < 0 || n > int64(reader.Len()) {
+			// body of the last record is incomplete
+			break
 		}
 
 		// data body
 		data := make([]byte, n)
 		if err = binary.Read(reader, binary.LittleEndian, &data); err != nil {
+			if isTornTail(err) {
+				break
+			}
 			return nil, err
 		}
 
@@ -208,6 +219,11 @@ func (w *WAL) Read() ([]types.Entry, error) {
 	}
 
 	return entries, nil
+}
+
+// a record that ends before its announced length is the torn tail of an append that never returned
+func isTornTail(err error) bool {
+	return errors.Is(err, io.EOF) || errors.Is(err, io.ErrUnexpectedEOF)
 }
 
 func (w *WAL) Version() string {
